@@ -102,7 +102,7 @@ Qed.
 
 Lemma fa_init_ss fuel ffuel r r' x : fa_init fuel ffuel r = (r', x) -> ss r' = ss r.
 Proof.
-  unfold fa_init. destruct (fa_first_byte fuel ffuel r 0) as [r1 fb] eqn:E.
+  unfold fa_init. destruct (fa_first_byte fuel ffuel r (pline r)) as [r1 fb] eqn:E.
   pose proof (fa_first_byte_ss _ _ _ _ _ _ E) as H1.
   destruct fb as [ln pos b| |k|]; try (intros H; inversion H; subst; exact H1).
   destruct (b =? GT); intros H; inversion H; subst; exact H1.
@@ -196,8 +196,8 @@ Lemma seek_spec_gen inp ffuel r off s line :
   exists r' off', fa_seek ffuel r line s = (r', OOk) /\
     PosAt inp ffuel r' off' s line /\ seek_ok (src r') /\
     (* which branch was taken *)
-    ((off <= s < off + length (buf r) /\ off' = off /\ buf r' = buf r /\ src r' = src r) \/
-     (~ (off <= s < off + length (buf r)) /\ off' = s /\ start r' = 0)).
+    ((off <= s < off + length (buf r) /\ st r <> FNew /\ off' = off /\ buf r' = buf r /\ src r' = src r) \/
+     ((~ (off <= s < off + length (buf r)) \/ st r = FNew) /\ off' = s /\ start r' = 0)).
 Proof.
   intros W He0 Hpol Hcap W3 Hsk Hgt.
   assert (Hin : s < length inp) by (apply nth_error_Some; rewrite Hgt; discriminate).
@@ -205,8 +205,10 @@ Proof.
   unfold fa_seek.
   set (pos := (Z.of_nat (start r) + (Z.of_nat s - Z.of_nat (pbyte r)))%Z).
   assert (Hpos_eq : pos = (Z.of_nat s - Z.of_nat off)%Z) by (unfold pos; rewrite W3; lia).
-  destruct ((0 <=? pos)%Z && (pos <? Z.of_nat (length (buf r)))%Z) eqn:Ein.
+  destruct ((0 <=? pos)%Z && (pos <? Z.of_nat (length (buf r)))%Z && negb (fa_state_eqb (st r) FNew)) eqn:Ein.
   - (* the target is inside the buffer *)
+    apply andb_true_iff in Ein. destruct Ein as [Ein Enew].
+    assert (Hnew : st r <> FNew) by (intros Hn; rewrite Hn in Enew; discriminate).
     apply andb_true_iff in Ein. destruct Ein as [E1 E2].
     apply Z.leb_le in E1. apply Z.ltb_lt in E2.
     assert (Hp : Z.to_nat pos = s - off) by lia.
@@ -221,9 +223,11 @@ Proof.
                       set_seqpos set_start set_spos set_st set_pbyte set_pline]; auto; try lia.
     eapply Win_ext; [| | |exact W]; reflexivity.
   - (* a real seek of the source, then a refill *)
-    assert (Hrange : ~ (off <= s < off + length (buf r))).
-    { apply andb_false_iff in Ein. destruct Ein as [E|E];
-        [apply Z.leb_gt in E | apply Z.ltb_ge in E]; lia. }
+    assert (Hrange : ~ (off <= s < off + length (buf r)) \/ st r = FNew).
+    { apply andb_false_iff in Ein. destruct Ein as [Ein|Enew].
+      - left. apply andb_false_iff in Ein. destruct Ein as [E|E];
+          [apply Z.leb_gt in E | apply Z.ltb_ge in E]; lia.
+      - right. destruct (st r); try discriminate. reflexivity. }
     assert (Hseek : exists ss', src_seek (src r) s = (mkSource (s_data (src r)) s (s_rs (src r)) ss', None) /\
                                 forallb sitem_ok ss' = true).
     { unfold src_seek. unfold seek_ok in Hsk. destruct (s_ss (src r)) as [|[|k] ss0].
@@ -264,8 +268,8 @@ Lemma seek_spec inp ffuel r off s line :
   Common inp ffuel r off -> seek_ok (src r) -> nth_error inp s = Some GT ->
   exists r' off', fa_seek ffuel r line s = (r', OOk) /\
     PosAt inp ffuel r' off' s line /\ seek_ok (src r') /\
-    ((off <= s < off + length (buf r) /\ off' = off /\ buf r' = buf r /\ src r' = src r) \/
-     (~ (off <= s < off + length (buf r)) /\ off' = s /\ start r' = 0)).
+    ((off <= s < off + length (buf r) /\ st r <> FNew /\ off' = off /\ buf r' = buf r /\ src r' = src r) \/
+     ((~ (off <= s < off + length (buf r)) \/ st r = FNew) /\ off' = s /\ start r' = 0)).
 Proof.
   intros [W He Hpol Hcap W3]. apply seek_spec_gen; auto.
 Qed.
